@@ -311,7 +311,10 @@ int a_vec_store(a_vec *ctx, a_size idx, void *ptr, a_size num, int (*copy)(void 
 int a_vec_erase(a_vec *ctx, a_size idx, a_size num, void (*dtor)(void *))
 {
     int rc = A_SUCCESS;
-    a_size const n = idx + num;
+    a_size n;
+    if (idx >= ctx->num_) { return A_OBOUNDS; }
+    if (num > ctx->num_ - idx) { num = ctx->num_ - idx; }
+    n = idx + num;
     if (dtor && ctx->num_)
     {
         a_size i = (n <= ctx->num_ ? n : ctx->num_);
